@@ -269,7 +269,7 @@ var (
 	DotPartsRegex  = regexp.MustCompile(`[.]?[^'#:;\\~@\[\]{}\^|"()%.0-9,][^'#:;\\~@\[\]{}\^|"()%.,]*`)
 	CharRegex      = regexp.MustCompile("^'(\\\\?.|\n)'$")
 
-	FloatRegex = regexp.MustCompile(`^-?([0-9]+[0-9_]*\.[0-9_]*)$|^-?(\.[0-9]+[0-9_]*)$|^-?([0-9]+[0-9_]*(\.[0-9_]*)?[eE]([-+]?[0-9]+[0-9_]*))$`)
+	FloatRegex = regexp.MustCompile(`^-?([0-9]+[0-9_]*\.[0-9_]*)$|^-?(\.[0-9]+[0-9_]*([eE][-+]?[0-9]+[0-9_]*)?)$|^-?([0-9]+[0-9_]*(\.[0-9_]*)?[eE]([-+]?[0-9]+[0-9_]*))$`)
 
 	ComplexRegex = regexp.MustCompile("^-?([0-9]+[0-9_]*\\.[0-9_]*)i?$|^-?(\\.[0-9]+[0-9_]*)i?$|^-?([0-9]+[0-9_]*(\\.[0-9_]*)?[eE](-?[0-9]+[0-9_]*))i?$")
 
